@@ -290,7 +290,12 @@ static std::string run_variant(const std::string& variant, const std::string& sr
   }
   if (variant == "buf") {
     return with_src<int>(src, ARR, [&](auto& p) {
-      return p.copy_and_verify_buffer_address([&](uintptr_t a) -> std::string { disarm(); return "addr=" + show_off(reinterpret_cast<void*>(a)); }, 16);
+      return p.copy_and_verify_buffer_address([&](uintptr_t a) -> std::string {
+        disarm();
+        // the address handed to the verifier must be the start of the extent that was range-checked (first check of the call)
+        std::string c0 = vsbx::g_n_same_sbx == 0 ? std::string("none") : show_off(reinterpret_cast<void*>(vsbx::g_first_same_sbx[0]));
+        return "addr=" + show_off(reinterpret_cast<void*>(a)) + " chk0=" + c0;
+      }, 16);
     });
   }
   if (variant == "copymem") {
